@@ -454,6 +454,9 @@ def lazy_rule(ctx):
 
 
 def run(ctx):
+    from . import e2e_rules as _e2e
+
+    ctx.attempt(_e2e.laws_rule, ctx, 'R11.E1')
     ctx.level = "proof"
     ctx.explanation = (
         "The stiffness and compliance literals of the transversely isotropic and orthotropic laws are interpreted entry by entry as rational functions of the moduli "
